@@ -87,6 +87,19 @@ type xmlParser struct {
 	nsPos      int
 	attrs      []XmlAttribute
 	attrPos    int
+	// one token of lookahead, read while merging character data
+	peeked    xml.Token
+	peekedErr error
+}
+
+func (x *xmlParser) nextToken() (xml.Token, error) {
+	if x.peeked != nil || x.peekedErr != nil {
+		tok, err := x.peeked, x.peekedErr
+		x.peeked, x.peekedErr = nil, nil
+		return tok, err
+	}
+
+	return x.xmlReader.Token()
 }
 
 func (x *xmlParser) Pull() (node.Node, bool, error) {
@@ -108,37 +121,61 @@ func (x *xmlParser) Pull() (node.Node, bool, error) {
 	x.attrPos = 0
 	x.namespaces = emptyXmlNamespaces
 	x.nsPos = 0
-	tok, err := x.xmlReader.Token()
 
-	if err != nil {
-		return nil, false, err
+	for {
+		tok, err := x.nextToken()
+
+		if err != nil {
+			return nil, false, err
+		}
+
+		switch n := tok.(type) {
+		case xml.StartElement:
+			x.namespaces = createXmlNamespaces(n.Attr)
+			x.attrs = createXmlAttrs(n.Attr)
+			return XmlElement{
+				space: n.Name.Space,
+				local: n.Name.Local,
+			}, false, nil
+		case xml.EndElement:
+			return nil, true, nil
+		case xml.CharData:
+			// Adjacent character data (text, CDATA sections) is one text node.
+			value := string(n)
+
+			for {
+				next, err := x.xmlReader.Token()
+
+				if cd, ok := next.(xml.CharData); ok && err == nil {
+					value += string(cd)
+					continue
+				}
+
+				x.peeked, x.peekedErr = xml.CopyToken(next), err
+				break
+			}
+
+			return XmlCharData{
+				value: value,
+			}, false, nil
+		case xml.Comment:
+			return XmlComment{
+				value: (string)(n),
+			}, false, nil
+		case xml.ProcInst:
+			if n.Target == "xml" {
+				// The XML declaration is not a processing instruction node.
+				continue
+			}
+
+			return XmlProcInst{
+				target: n.Target,
+				value:  string(n.Inst),
+			}, false, nil
+		}
+
+		// Directives (<!DOCTYPE ...>) are not part of the data model.
 	}
-
-	switch n := tok.(type) {
-	case xml.StartElement:
-		x.namespaces = createXmlNamespaces(n.Attr)
-		x.attrs = createXmlAttrs(n.Attr)
-		return XmlElement{
-			space: n.Name.Space,
-			local: n.Name.Local,
-		}, false, nil
-	case xml.CharData:
-		return XmlCharData{
-			value: (string)(n),
-		}, false, nil
-	case xml.Comment:
-		return XmlComment{
-			value: (string)(n),
-		}, false, nil
-	case xml.ProcInst:
-		return XmlProcInst{
-			target: n.Target,
-			value:  string(n.Inst),
-		}, false, nil
-	}
-
-	//case xml.EndElement:
-	return nil, true, nil
 }
 
 func createXmlNamespaces(attrs []xml.Attr) []XmlNamespace {
@@ -152,15 +189,22 @@ func createXmlNamespaces(attrs []xml.Attr) []XmlNamespace {
 
 	for _, i := range attrs {
 		if i.Name.Space == "" && i.Name.Local == xmlns {
+			// xmlns="..." (an empty value undeclares the default namespace)
 			ns = XmlNamespace{
 				prefix: "",
 				value:  i.Value,
 			}
 
 			ret = append(ret, ns)
-		}
+		} else if i.Name.Space == xmlns {
+			// xmlns:prefix="..."
+			ns = XmlNamespace{
+				prefix: i.Name.Local,
+				value:  i.Value,
+			}
 
-		if i.Name.Local == xmlns {
+			ret = append(ret, ns)
+		} else if i.Name.Local == xmlns {
 			ns = XmlNamespace{
 				prefix: i.Name.Space,
 				value:  i.Value,
